@@ -327,13 +327,17 @@ def call_np(interp, name, args, kwargs, lineno):
         a = snap(x)
         cs = a.concrete_shape()
         if cs is None:
-            raise AnalysisError(f"np.{name} over an array of symbolic shape")
+            # a quantified predicate over symbolic data: an opaque 0/1 atom per call site; a branch on it is explored both ways
+            # (interp.JobFork), see there for what is reported on the outcome that pins the data
+            if A.masked_of(a):
+                raise AnalysisError(f"np.{name} over a boolean-mask selection")
+            return Rat.atom(('qpred', name, ('line', interp.cur_file, lineno)))
         import itertools
         vals = []
         for idx in itertools.product(*[range(n) for n in cs]):
             v = a.at(tuple(Rat.const(i) for i in idx))
             if not v.is_const():
-                raise AnalysisError(f"np.{name} over symbolic truth values")
+                return Rat.atom(('qpred', name, ('line', interp.cur_file, lineno)))
             vals.append(v.const_value() != 0)
         return all(vals) if name == 'all' else any(vals)
     if name == 'isscalar':
@@ -458,7 +462,7 @@ def call_method(interp, obj, name, args, kwargs, lineno):
             shp = args[0] if len(args) == 1 else tuple(args)
             order = kwargs.get('order', 'C')
             return _view_of(obj, Box(A.reshape(ctx, a, shp, origin=lineno, order=str(order))))
-        if name in ('sum', 'max', 'min'):
+        if name in ('sum', 'max', 'min', 'all', 'any'):
             from .npmodel import call_np
             return call_np(interp, name, [a], {}, lineno)
         if name == 'view':
@@ -469,12 +473,30 @@ def call_method(interp, obj, name, args, kwargs, lineno):
             return Box(a)
         raise AnalysisError(f"ndarray method {name}")
     if isinstance(obj, list):
+        if name in ('append', 'extend', 'insert', 'pop', 'remove', 'clear', 'sort', 'reverse'):
+            # a python list handed in by the caller (a term list): record the mutation like a store into input storage
+            tag = getattr(interp, 'frozen_lists', {}).get(id(obj))
+            if tag:
+                interp.events.append(('input-mutated', tag, interp.cur_file, lineno))
         if name == 'append':
             obj.append(args[0])
             return None
         if name == 'extend':
             obj.extend(args[0])
             return None
+        if name == 'insert':
+            obj.insert(R(args[0]).as_int(), args[1])
+            return None
+        if name == 'pop':
+            return obj.pop(*[R(x).as_int() for x in args[:1]])
+        if name == 'clear':
+            obj.clear()
+            return None
+        if name == 'reverse':
+            obj.reverse()
+            return None
+        if name == 'copy':
+            return list(obj)
     if isinstance(obj, dict):
         if name == 'get':
             return obj.get(args[0], args[1] if len(args) > 1 else None)
